@@ -179,6 +179,42 @@ func init() {
 		e.callFunction(cl.Fn, nil, cl.Bind)
 		return nil
 	})
+	// sync.Pool: Get hands back the most recently Put item if there is one (the choice that exposes premature reuse),
+	// otherwise calls New
+	poolKey := func(e *Exec, v Value) string {
+		p := v.(Ptr)
+		return fmt.Sprintf("%p+%d", p.Obj, p.Off)
+	}
+	reg("(*sync.Pool).Put", func(e *Exec, fn *ssa.Function, a []Value) Value {
+		if e.pools == nil {
+			e.pools = map[string][]Value{}
+		}
+		k := poolKey(e, a[0])
+		e.pools[k] = append(e.pools[k], a[1])
+		return nil
+	})
+	reg("(*sync.Pool).Get", func(e *Exec, fn *ssa.Function, a []Value) Value {
+		k := poolKey(e, a[0])
+		if items := e.pools[k]; len(items) > 0 {
+			v := items[len(items)-1]
+			e.pools[k] = items[:len(items)-1]
+			return v
+		}
+		p := a[0].(Ptr)
+		st := e.prog.ImportedPackage("sync").Type("Pool").Type().Underlying().(*types.Struct)
+		for i := 0; i < st.NumFields(); i++ {
+			if st.Field(i).Name() == "New" {
+				nv := p.Obj.Cells[p.Off+fieldOffset(st, i)]
+				if cl, ok := nv.(*Closure); ok && cl != nil {
+					return e.callFunction(cl.Fn, nil, cl.Bind)
+				}
+				if f, ok := nv.(*ssa.Function); ok && f != nil {
+					return e.callFunction(f, nil, nil)
+				}
+			}
+		}
+		return Iface{}
+	})
 	// time.After: a channel that is ready at once (a select listing it last models "otherwise, time out")
 	reg("time.After", func(e *Exec, fn *ssa.Function, a []Value) Value {
 		e.nextObj++
